@@ -508,9 +508,6 @@ func runSearch(r *vk.Run, c *cfg, name string, depth, maxState int) vk.Result {
 func main() {
 	log.Root().SetHandler(log.DiscardHandler())
 	r := vk.Start("C10", "model_checking")
-	if r.ReplayPath != "" {
-		vk.Fatalf("replay: re-run the op list printed in the replay file with `go test` style driver (not needed: ops are named)")
-	}
 	baseKeys := [][]byte{[]byte("a"), []byte("ab"), []byte("abc"), []byte("abd"), []byte("b"), k32a, k32b}
 	allKeys := append(append([][]byte{}, baseKeys...), []byte(""), k33)
 	vals := [][]byte{[]byte("v"), long, []byte("w")}
@@ -546,6 +543,9 @@ func main() {
 	r.Set("searches", per)
 	r.Set("states", states)
 	r.Set("transitions", trans)
+	if r.ReplayPath != "" {
+		r.Finish()
+	}
 
 	// phase 2: all insertion permutations of every reached content (<= 6 keys) give one root;
 	// phase 3: proof tampering for every reached content and every alphabet key.
